@@ -52,41 +52,59 @@ Section WrapSpec.
     | Subst _ => (Backtick, 3%nat, [], [])
     end.
 
-  (* well-formed use of an (untitled) admonition wrapper around the body lines X:
-     the fence cannot be closed from inside, the info string names the directive, docutils
-     knows the name as an admonition class, and the directive text splitter hands back
-     exactly X as the body (the body/offset hypothesis; SplitProofs.v proves it for the
-     usual layouts) *)
+  Definition cls_of (titled : bool) : dclass := if titled then admt_class else adm_class.
+
+  (* well-formed use of an admonition wrapper (note, warning, ... or the titled "admonition")
+     around the body lines X: the fence cannot be closed from inside, the info string names
+     the directive (and carries the title), docutils knows the name as an admonition class, and
+     the directive text splitter hands back exactly X as the body (the body/offset hypothesis;
+     SplitProofs.v proves it for the usual layouts, the "---" one included) *)
   Fixpoint wfW (w : wrapper) (X : list str) : Prop :=
     match w with
     | Adm titled name first o k len =>
-        titled = false
-        /\ fence_safe k len (info_of name first) (opt_lines o ++ X) = true
+        fence_safe k len (info_of name first) (opt_lines o ++ X) = true
         /\ parse_info (info_of name first) = ([c_lbrace] ++ name ++ [c_rbrace], first)
         /\ str_eqb name eval_rst_name = false
-        /\ o_dir_lookup orc name = Some (KAdm false, adm_class)
-        /\ (exists p, parse_directive_text adm_class first
+        /\ o_dir_lookup orc name = Some (KAdm titled, cls_of titled)
+        /\ (exists p, parse_directive_text (cls_of titled) first
                         (directive_content k (opt_lines o ++ X)) = Ok p
                       /\ p_body p = X /\ X <> [])
     | Nest o i => wfW o (print_lines i X) /\ wfW i X
     | _ => False
     end.
 
+  (* state.inline_text(title, lineno) at fuel f: the title's nodes and the registries after it *)
+  Definition den_title (f : nat) (h : shared) (title : str) (lineno : N) : res dres :=
+    den_nested env orc (den_tok env orc f) false h title lineno true 0.
+
   (* The expected denotation of the fence token of  print_lines w X  when that token sits at
-     line pos: one admonition node per layer (preceded by the option warnings), the innermost
-     one holding [bd lineno] = the body's own denotation at the constant shift lineno. *)
-  Fixpoint expected (w : wrapper) (X : list str) (bd : N -> res dres) (pos : N) : res dres :=
+     line pos and the registries are h: one admonition node per layer (preceded by the option
+     warnings; a titled one starts with its title node, rendered first), the innermost one
+     holding [bd h' lineno] = the body's own denotation from the registries h' it finds, at the
+     constant shift lineno.  F is the fuel of the body. *)
+  Fixpoint expected (F : nat) (w : wrapper) (X : list str) (bd : shared -> N -> res dres)
+      (h : shared) (pos : N) : res dres :=
     match w with
-    | Adm _ name first o k len =>
-        match parse_directive_text adm_class first (directive_content k (opt_lines o ++ X)) with
+    | Adm titled name first o k len =>
+        match parse_directive_text (cls_of titled) first (directive_content k (opt_lines o ++ X)) with
         | Ok p =>
             let '(attrs, warns) := o_opt_validate orc name (p_optblock p) in
-            do r <- bd (pos + N.of_nat (p_off p - prepended_lines (is_colon k) (unlines (opt_lines o ++ X))));
+            do r1 <- (if titled then
+                        match p_args p with
+                        | a :: _ => do rt <- den_title F h a pos;
+                                    Ok ([Node NTitle a None (fst (fst rt))], snd (fst rt))
+                        | [] => Raise IndexError
+                        end
+                      else Ok ([], h));
+            do r <- bd (snd r1)
+                      (pos + N.of_nat (p_off p - prepended_lines (is_colon k) (unlines (opt_lines o ++ X))));
             Ok (directive_warnings p warns pos
-                ++ [Node NAdm (name ++ attrs) (Some pos) (fst (fst r))], snd (fst r), false)
+                ++ [Node NAdm (name ++ attrs) (Some pos) (fst r1 ++ fst (fst r))], snd (fst r), false)
         | Raise e => Raise e
         end
-    | Nest o i => expected o (print_lines i X) (fun lineno => expected i X bd (lineno + 1)) pos
+    | Nest o i =>
+        expected (depth i + F) o (print_lines i X)
+                 (fun h' lineno => expected F i X bd h' (lineno + 1)) h pos
     | _ => Raise AssertionError
     end.
 
